@@ -251,11 +251,6 @@ func (l *Lexer) nextInsideToken() token.Token {
 }
 
 func (l *Lexer) skipWhitespace() {
-	if l.readPosition >= len(l.input) {
-		l.readChar()
-		return
-	}
-
 	for l.ch == ' ' || l.ch == '\t' || l.ch == '\n' || l.ch == '\r' {
 		l.readChar()
 	}
